@@ -1117,5 +1117,5 @@ func (e *Enc) entryRefFact(key, sort string, lf Leaf, m, k string) {
 		return
 	}
 	a0 := e.declConst(sym(key+"@0"), sort)
-	e.assert("(<= (select (select " + a0 + " " + m + ") " + k + ") alloc@0)")
+	e.assert("(=> (<= " + m + " alloc@0) (<= (select (select " + a0 + " " + m + ") " + k + ") alloc@0))")
 }
